@@ -22,6 +22,9 @@ func vhHugeLineFs() {
 	if vParam("BIG", 0) == 1 {
 		n = 65536
 	}
+	if vParam("BIG", 0) == 2 {
+		n = 800000 // a configuration file of more than 1 MiB
+	}
 	payload := make([]byte, n)
 	for i := range payload {
 		payload[i] = byte(i*7 + 3)
